@@ -194,33 +194,80 @@ theorem cast_or_id_zero (t acc : Nat) (T : IType) (hT : typeOfCode acc = some T)
   · unfold typeOfCode at hT
     split at hT <;> first | rfl | cases hT
 
-/-- **`sum` of a nullable integer array at graph level (C04 / C10).**  The exported graph (`astype` → `where(null, 0, values)`
-→ through int64 → `ReduceSum` → cast back) returns, at every result position, the exact sum of the **non-null** elements of
-the reduced slice wrapped into the accumulator dtype: nulls count as absent, and the result is a function of
-`fillNull 0 values null`, which reads `values` at non-null positions only — the payload stored under a null cannot reach it. -/
+theorem castElem_zero (c : Nat) : castElem c 0 = 0 := by
+  unfold castElem
+  split <;> first | rfl | decide
+
+/-- `whereFill` evaluates, on in-range indices, to `g'` of `fillNull 0 values null` where `g'` is congruent to the identity
+modulo `2^bits` and fixes 0. -/
+theorem whereFill_zero_eval (env) (values null : TG) (t acc : Nat) (T : IType) (hT : typeOfCode acc = some T)
+    (hs : (null.eval env).shape = (values.eval env).shape) :
+    ∃ g : Int → Int, (∀ v, wrapU T.bits (g v) = wrapU T.bits v) ∧
+      ((whereFill acc null 0 (astypeG t acc values)).eval env).shape = (values.eval env).shape ∧
+      ∀ ix, InRange (values.eval env).shape ix →
+        ((whereFill acc null 0 (astypeG t acc values)).eval env).get ix
+          = g ((fillNull 0 (values.eval env) (null.eval env)).get ix) := by
+  obtain ⟨hcast, hbits⟩ := castElem_of_code acc T hT
+  obtain ⟨has, hag⟩ := astypeG_eval env values t acc
+  have hz := cast_or_id_zero t acc T hT
+  have hU := cast_or_id_wrapU t acc T hT
+  unfold whereFill
+  by_cases hu : isUnsignedCode acc = true
+  · -- routed through int64
+    simp only [hu, if_true]
+    refine ⟨fun v => castElem acc (castElem 7 ((if t = acc then id else castElem acc) v)), ?_, ?_, ?_⟩
+    · intro v
+      show wrapU T.bits (castElem acc (castElem 7 ((if t = acc then id else castElem acc) v))) = _
+      rw [hcast, wrapU_twrap]
+      show wrapU T.bits (wrapS 64 _) = _
+      rw [wrapU_wrapS64 T.bits hbits]
+      exact hU v
+    · obtain ⟨hws, _⟩ := where_fill_eval (null.eval env) ((iscalar 0).eval env) (((astypeG t acc values).eval env).map (castElem 7)) 0
+        (isScalar_iscalar env 0) (hs.trans has.symm)
+      simp only [TG.eval, Tensor.map] at hws ⊢
+      exact hws.trans has
+    · intro ix hix
+      obtain ⟨_, hwg⟩ := where_fill_eval (null.eval env) ((iscalar 0).eval env) (((astypeG t acc values).eval env).map (castElem 7)) 0
+        (isScalar_iscalar env 0) (hs.trans has.symm)
+      have := hwg ix (has ▸ hix)
+      simp only [TG.eval, Tensor.map] at this ⊢
+      rw [this]
+      simp only [fillNull, hag]
+      split
+      · rw [castElem_zero, hz, castElem_zero, castElem_zero]
+      · rfl
+  · simp only [hu, Bool.false_eq_true, if_false]
+    refine ⟨(if t = acc then id else castElem acc), hU, ?_, ?_⟩
+    · obtain ⟨hws, _⟩ := where_fill_eval (null.eval env) ((iscalar 0).eval env) ((astypeG t acc values).eval env) 0
+        (isScalar_iscalar env 0) (hs.trans has.symm)
+      simp only [TG.eval]; exact hws.trans has
+    · intro ix hix
+      obtain ⟨_, hwg⟩ := where_fill_eval (null.eval env) ((iscalar 0).eval env) ((astypeG t acc values).eval env) 0
+        (isScalar_iscalar env 0) (hs.trans has.symm)
+      simp only [TG.eval]
+      rw [hwg ix (has ▸ hix)]
+      simp only [fillNull, hag]
+      split
+      · exact hz.symm
+      · rfl
+
+/-- **`sum` of a nullable integer array at graph level (C04 / C10).**  The exported graph (`astype` → `where(null, 0, values)`,
+routed through int64 for unsigned data → through int64 → `ReduceSum` → cast back) returns, at every result position, the
+exact sum of the **non-null** elements of the reduced slice wrapped into the accumulator dtype: nulls count as absent, and the
+result is a function of `fillNull 0 values null`, which reads `values` at non-null positions only — the payload stored under a
+null cannot reach it. -/
 theorem sum_nullable_graph_correct (env) (values null : TG) (t acc : Nat) (T : IType) (hT : typeOfCode acc = some T)
     (axis : AxisArg) (keepdims : Bool) (hv : axisValid (values.eval env).rank axis)
     (hs : (null.eval env).shape = (values.eval env).shape) :
-    ((viaI64 acc (reduceCore .sum keepdims axis (values.eval env).rank) (.sel null (iscalar 0) (astypeG t acc values))).eval env).shape
+    ((viaI64 acc (reduceCore .sum keepdims axis (values.eval env).rank) (whereFill acc null 0 (astypeG t acc values))).eval env).shape
       = reducedShape (values.eval env).shape axis keepdims ∧
     ∀ o, InRange (reducedShape (values.eval env).shape axis keepdims) o →
-      ((viaI64 acc (reduceCore .sum keepdims axis (values.eval env).rank) (.sel null (iscalar 0) (astypeG t acc values))).eval env).get o
+      ((viaI64 acc (reduceCore .sum keepdims axis (values.eval env).rank) (whereFill acc null 0 (astypeG t acc values))).eval env).get o
         = T.wrap ((reduceVals (fillNull 0 (values.eval env) (null.eval env)) (npFlags (values.eval env).rank axis)
             (keptIndex (npFlags (values.eval env).rank axis) keepdims o)).sum) := by
-  obtain ⟨has, hag⟩ := astypeG_eval env values t acc
-  obtain ⟨hws, hwg⟩ := where_fill_eval (null.eval env) ((iscalar 0).eval env) ((astypeG t acc values).eval env) 0
-    (isScalar_iscalar env 0) (hs.trans has.symm)
-  have hz := cast_or_id_zero t acc T hT
-  refine sum_via_core env (.sel null (iscalar 0) (astypeG t acc values)) (fillNull 0 (values.eval env) (null.eval env))
-    (if t = acc then id else castElem acc) acc T hT axis keepdims hv (by simp only [TG.eval]; exact hws.trans has) ?_
-    (cast_or_id_wrapU t acc T hT)
-  intro ix hix
-  simp only [TG.eval]
-  rw [hwg ix (has ▸ hix)]
-  simp only [fillNull, hag]
-  split
-  · exact hz.symm
-  · rfl
+  obtain ⟨g, hgU, hws, hwg⟩ := whereFill_zero_eval env values null t acc T hT hs
+  exact sum_via_core env (whereFill acc null 0 (astypeG t acc values)) (fillNull 0 (values.eval env) (null.eval env))
+    g acc T hT axis keepdims hv hws hwg hgU
 
 /-- Payload non-interference, stated on the operand of the theorem above: two values tensors that agree wherever the
 element is not null give the same filled operand (hence the same sum). -/
